@@ -122,6 +122,15 @@ func ParseReadWriteMultipleRegistersRequestTCP(data []byte) (*ReadWriteMultipleR
 		tmpErr.Packet.Function = FunctionReadWriteMultipleRegisters
 		return nil, tmpErr
 	}
+	if len(data) < 17 {
+		// length in header matches the data but packet is too short for this function. NB: slicing data beyond
+		// its length would silently read stale bytes from the spare capacity of the underlying buffer
+		tmpErr := NewErrorParseTCP(ErrIllegalDataValue, "received data length too short to be valid packet")
+		tmpErr.Packet.TransactionID = header.TransactionID
+		tmpErr.Packet.UnitID = unitID
+		tmpErr.Packet.Function = FunctionReadWriteMultipleRegisters
+		return nil, tmpErr
+	}
 	readQuantity := binary.BigEndian.Uint16(data[10:12])
 	if !(readQuantity >= 1 && readQuantity <= 125) { // 0x0001 to 0x007D
 		tmpErr := NewErrorParseTCP(ErrIllegalDataValue, "invalid read quantity. valid range 1..125")
